@@ -489,7 +489,7 @@ def kstep (s : St) (op : List String) (impl : String) : St × String :=
         -- the window), on the window `Window().New(c, r, ww, wh)` of C11's model
         let win := targetWin s c r ww wh
         let ps := if ImageDraw.drawnWith VaxisModel.Gen.ImageConsts.sixelGates k.hasData false k.mw k.mh win
-                  then (Placements.step s.ps (.draw ⟨id, c, r, k.mw, k.mh⟩)).1 else s.ps
+                  then (Placements.stepGen s.ps (.draw ⟨id, c, r, k.mw, k.mh⟩)).1 else s.ps
         -- oracle side (independent): the frame holds the placement iff the image has data and fits
         let width := childExtent c ww s.cols
         let height := childExtent r wh s.rows
@@ -523,7 +523,7 @@ def kstep (s : St) (op : List String) (impl : String) : St × String :=
         -- than the window), on the window `Window().New(c, r, ww, wh)` of C11's model
         let win := targetWin s c r ww wh
         let ps := if ImageDraw.drawnWith VaxisModel.Gen.ImageConsts.kittyGates true false k.mw k.mh win
-                  then (Placements.step s.ps (.draw ⟨id, c, r, k.mw, k.mh⟩)).1 else s.ps
+                  then (Placements.stepGen s.ps (.draw ⟨id, c, r, k.mw, k.mh⟩)).1 else s.ps
         -- oracle (independent of the model): a drawn placement must lie inside its window (F120), and the frame
         -- holds the placement iff the image fits
         let width := childExtent c ww s.cols
@@ -541,12 +541,12 @@ def kstep (s : St) (op : List String) (impl : String) : St × String :=
         (s', s!"{snap ps}\t{impl}\t{verdict}")
     | _, _ => (s, bad)
   | ["kclear"] =>
-    let ps := (Placements.step s.ps .clear).1
+    let ps := (Placements.stepGen s.ps .clear).1
     ({ s with ps := ps, cur := [] }, s!"{snap ps}\t{impl}\t-")
   | [k] =>
     if k = "krender" ∨ k = "krefresh" then
       let isRefresh := k = "krefresh"
-      let (ps, out) := Placements.step s.ps (if isRefresh then .refresh else .render)
+      let (ps, out) := Placements.stepGen s.ps (if isRefresh then .refresh else .render)
       let out := out.getD ⟨[], []⟩
       -- uploads: image data goes out with the first placement after a successful encode
       let (imgs, ups) := out.writes.foldl (fun (acc : List (Nat × KImg) × List String) p =>
